@@ -4,7 +4,7 @@
 From Coq Require Import List ZArith Bool String Permutation.
 From Qryn Require Import model.GoQuote model.LabelJson model.Fingerprint model.Labels
   model.SeriesIndex model.Dates model.CacheKey model.ProtoLabels
-  proofs.FingerprintProofs proofs.LabelsProofs proofs.JsonQuoteProofs proofs.ProtoLabelsProofs proofs.SeriesIndexProofs proofs.DatesProofs proofs.CacheKeyProofs.
+  proofs.FingerprintProofs proofs.FingerprintInjProofs proofs.LabelsProofs proofs.JsonQuoteProofs proofs.ProtoLabelsProofs proofs.SeriesIndexProofs proofs.DatesProofs proofs.CacheKeyProofs.
 Import ListNotations.
 Open Scope Z_scope.
 
@@ -65,6 +65,58 @@ Theorem fingerprint_injective_partial : forall ch64 h128 fin (F : list label -> 
   fingerprint ch64 h128 fin l1 = fingerprint ch64 h128 fin l2 -> Permutation l1 l2.
 Proof. exact fingerprint_injective_on. Qed.
 Print Assumptions fingerprint_injective_partial.
+
+(* (a3') The same, reduced to facts about the hash functions themselves. fingerprint = fin . acc . map lhash with
+   lhash (n, v) = Hash128to64 (CH64 n, CH64 v) and acc = (sum, xor, product of 1779033703 + 2h) mod 2^64.
+   On a family F of label lists over a universe U of labels FOUR collision-freeness facts suffice, and then the
+   fingerprint identifies the label set exactly (equal iff permutation), for any final hash (CityHash, Bernstein):
+     CH64 tells the (name, value) pairs of U apart; Hash128to64 tells their images apart; the accumulator tells the
+     multisets of pair hashes of F apart; the final hash tells the accumulator triples of F apart.
+   None of the four is established for all inputs (impossible for 64 bits); the check tests their consequence
+   (distinct fingerprints) on every generated family. *)
+Theorem fingerprint_identifies_label_set : forall ch64 h128 fin (U : label -> Prop) (F : list label -> Prop),
+  (forall l, F l -> Forall U l) ->
+  (forall x y, U x -> U y -> ch64 (fst x) = ch64 (fst y) -> ch64 (snd x) = ch64 (snd y) -> x = y) ->
+  (forall x y, U x -> U y ->
+     w64 (h128 (ch64 (fst x)) (ch64 (snd x))) = w64 (h128 (ch64 (fst y)) (ch64 (snd y))) ->
+     ch64 (fst x) = ch64 (fst y) /\ ch64 (snd x) = ch64 (snd y)) ->
+  (forall l1 l2, F l1 -> F l2 -> acc (map (lhash ch64 h128) l1) = acc (map (lhash ch64 h128) l2) ->
+     Permutation (map (lhash ch64 h128) l1) (map (lhash ch64 h128) l2)) ->
+  (forall l1 l2, F l1 -> F l2 -> fin (acc (map (lhash ch64 h128) l1)) = fin (acc (map (lhash ch64 h128) l2)) ->
+     acc (map (lhash ch64 h128) l1) = acc (map (lhash ch64 h128) l2)) ->
+  forall l1 l2, F l1 -> F l2 ->
+  (fingerprint ch64 h128 fin l1 = fingerprint ch64 h128 fin l2 <-> Permutation l1 l2).
+Proof. exact fingerprint_identifies. Qed.
+Print Assumptions fingerprint_identifies_label_set.
+
+(* For one-label sets the accumulator fact is a theorem (the pair hash is read off the xor component):
+   three facts suffice. *)
+Theorem fingerprint_injective_one_label : forall ch64 h128 fin (U : label -> Prop),
+  (forall x y, U x -> U y -> ch64 (fst x) = ch64 (fst y) -> ch64 (snd x) = ch64 (snd y) -> x = y) ->
+  (forall x y, U x -> U y ->
+     w64 (h128 (ch64 (fst x)) (ch64 (snd x))) = w64 (h128 (ch64 (fst y)) (ch64 (snd y))) ->
+     ch64 (fst x) = ch64 (fst y) /\ ch64 (snd x) = ch64 (snd y)) ->
+  (forall x y, U x -> U y -> fin (acc [lhash ch64 h128 x]) = fin (acc [lhash ch64 h128 y]) ->
+     acc [lhash ch64 h128 x] = acc [lhash ch64 h128 y]) ->
+  forall x y, U x -> U y -> fingerprint ch64 h128 fin [x] = fingerprint ch64 h128 fin [y] -> x = y.
+Proof. exact fingerprint_injective_single. Qed.
+Print Assumptions fingerprint_injective_one_label.
+
+(* For two labels it is NOT: two different multisets of 64-bit values with the same (sum, xor, product).
+   So the accumulator fact cannot be discharged by algebra; it is a fact about which pair hashes occur. *)
+Theorem accumulator_is_not_injective :
+  exists m1 m2 : list Z, Forall (fun h => 0 <= h < M64) (m1 ++ m2) /\ acc m1 = acc m2 /\ ~ Permutation m1 m2.
+Proof. exact acc_not_injective. Qed.
+Print Assumptions accumulator_is_not_injective.
+
+(* The four facts are not vacuous: they hold (by computation) on a family of one- and two-label sets, two of them
+   orders of the same set, with the real city.CH64 values and the transcribed Hash128to64, CH64 over 24 bytes and
+   Bernstein; hence there the fingerprint of either type identifies the label set. *)
+Theorem fingerprint_identifies_label_set_on_real_hashes : forall l1 l2, real_F l1 -> real_F l2 ->
+  (fingerprint_tbl real_tbl l1 = fingerprint_tbl real_tbl l2 <-> Permutation l1 l2) /\
+  (fingerprint_djb_tbl real_tbl l1 = fingerprint_djb_tbl real_tbl l2 <-> Permutation l1 l2).
+Proof. exact real_family_injective. Qed.
+Print Assumptions fingerprint_identifies_label_set_on_real_hashes.
 
 (* name and value enter the pair hash through separate arguments: under injective oracles
    {ab:"c"} and {a:"bc"} have different pair hashes *)
